@@ -97,6 +97,9 @@ def apply(obj, ev: dict):
         d = np.array(a["dims"], dtype=int)
         if isinstance(obj, ttb.sptensor) and a["red"] == "sum":
             return obj.collapse(d)        # default reducer (sum)
+        if a["red"] == "halfsum":
+            r = obj.collapse(d, lambda v: np.sum(v) / 2)
+            return r * 2
         return obj.collapse(d, {"sum": np.sum, "max": np.max, "min": np.min}[a["red"]])
     if op == "scale":
         F = bind.gamma(a["F"])
